@@ -41,6 +41,9 @@ def find_terminal_measurements(circuit: cirq.AbstractCircuit) -> list[tuple[int,
 
     open_qubits: set[cirq.Qid] = set(circuit.all_qubits())
     seen_control_keys: set[cirq.MeasurementKey] = set()
+    # Keys measured again later: moving the earlier measurement to the end would reorder the
+    # records of the key.
+    seen_measurement_keys: set[cirq.MeasurementKey] = set()
     terminal_measurements: set[tuple[int, cirq.Operation]] = set()
     for i in range(len(circuit) - 1, -1, -1):
         moment = circuit[i]
@@ -50,11 +53,14 @@ def find_terminal_measurements(circuit: cirq.AbstractCircuit) -> list[tuple[int,
                 op is not None
                 and open_qubits.issuperset(op.qubits)
                 and protocols.is_measurement(op)
-                and not (seen_control_keys & protocols.measurement_key_objs(op))
+                and not (
+                    (seen_control_keys | seen_measurement_keys) & protocols.measurement_key_objs(op)
+                )
             ):
                 terminal_measurements.add((i, op))
         open_qubits -= moment.qubits
         seen_control_keys |= protocols.control_keys(moment)
+        seen_measurement_keys |= protocols.measurement_key_objs(moment)
         if not open_qubits:
             break
     return list(terminal_measurements)
